@@ -125,4 +125,7 @@ def run(check, ctx):
     # reading a native point (coordinates, comparison, clone) does not change it
     from . import c_ed
     c_ed.ed_tables(check, ctx, rule="P6-c", groups=("points",))
+    # point objects do not share native cells: copy(), set() and the value operators give independent objects
+    from . import point_compose
+    point_compose.point_rows(check, ctx, rule="P6", programs=("copy.independent", "set.independent", "value.operators", "iadd.inplace", "x.copy.independent", "x.set.independent", "x.value.operators"))
     check.undecided.append("concurrent use of the same object; atomicity assumptions of CPython containers; GMP's own thread safety")
